@@ -18,6 +18,10 @@
 (*                    destination as source UIDs, every destination UID is *)
 (*                    a message that arrived there, and the i-th pair has  *)
 (*                    the same content                                     *)
+(*  C04_UidDenotesOneMessage  a UID FETCHed in a selection names the        *)
+(*                    message that was given this UID in the mailbox the    *)
+(*                    session selected (ev.bound, the identity its          *)
+(*                    UIDVALIDITY was announced for) - never another one    *)
 (***************************************************************************)
 EXTENDS Naturals, Sequences, FiniteSets, TLC, Json, IOUtils
 
@@ -88,8 +92,17 @@ CopyUid(ev) ==
           THEN Fail("C04_CopyUid")
      ELSE UNCHANGED <<assigned, cid, floor, bad>>
 
+Fetch(ev) ==
+  IF ev.cid # 0 /\ ev.uid # 0 /\ ev.bound \in Objs /\ HasCid(ev.bound, ev.uid)
+     /\ TheCid(ev.bound, ev.uid) # ev.cid
+  THEN Fail("C04_UidDenotesOneMessage")
+  ELSE IF ev.cid # 0 /\ ev.uid # 0 /\ ev.bound \in Objs /\ ~HasCid(ev.bound, ev.uid)
+  THEN Fail("C04_UidDenotesOneMessage")      \* a UID that was never given out there
+  ELSE UNCHANGED <<assigned, cid, floor, bad>>
+
 Next == /\ l <= Len(Traces[tid]) /\ bad = ""
         /\ CASE Ev.e = "arrive"    -> Arrive(Ev)
+             [] Ev.e = "fetch"     -> Fetch(Ev)
              [] Ev.e = "uidnext"   -> UidNext(Ev)
              [] Ev.e = "appenduid" -> AppendUid(Ev)
              [] Ev.e = "copyuid"   -> CopyUid(Ev)
